@@ -499,9 +499,15 @@ def run_check(P, tier, seed, replay=None):
         small = canon(small)
         o2 = safe_impl(P, small)
         f2 = safe_oracle(P, small, o2) or f
+        m2 = model_outs_by_idx.get(i)
+        if small != case and small.get("op") and ok_driver:
+            try:
+                m2 = run_driver([getattr(P, "model_input", lambda c: c)(small)])[0]
+            except Exception:
+                m2 = None
         path = write_replay(pid, "failing-input", {
             "case": small, "original_case": case if small != case else None,
-            "impl_output": o2, "model_output": model_outs_by_idx.get(i),
+            "impl_output": o2, "model_output": m2,
             "oracle": f2, "seed": seed, "tier": tier,
             "broken": problems[:3]})
         lines.append(f"VIOLATION property={pid} replay={path}")
